@@ -77,6 +77,14 @@ class Demote:
 VERBOSE = [0]      # > 0 while a slice runs under vlib.common.verbose_logging()
 
 
+def raised_by_harness(e):
+    """True when the innermost frame of the exception is harness code (a recording wrapper / proxy of ours): such an exception is a
+    broken tie, never the implementation's behaviour"""
+    import traceback
+    tb = traceback.extract_tb(e.__traceback__)
+    return bool(tb) and os.path.abspath(tb[-1].filename).startswith(os.path.join(common.VERIF, "harness"))
+
+
 def quiet():
     import warnings
     warnings.filterwarnings("ignore")
@@ -829,7 +837,7 @@ def flush_pipe(ctx, res):
 
 
 # ------------------------------------------------------------------ real entry point: file -> Screen.load_h5 -> train_model.main()
-REC = {"log": []}
+REC = {"log": [], "wrapper_errors": []}
 
 
 def recording_models():
@@ -842,11 +850,25 @@ def recording_models():
 
     def mk(base, kind):
         class Rec(base):
-            def add_observations(self, data):
-                entry = {"kind": kind, "received_mask": [bool(x) for x in data.observation_mask], "received_obs": [S.bits(float(x)) for x in data.observations]}
+            # signature-agnostic: whatever the CLI passes is forwarded unchanged; the harness finds the data argument by binding the
+            # call to the ORIGINAL signature.  A failure of the recording itself is a broken tie (REC["wrapper_errors"]), never the code's fault.
+            def add_observations(self, *args, **kwargs):
+                entry = {"kind": kind}
+                try:
+                    import inspect
+                    bound = inspect.signature(base.add_observations).bind(self, *args, **kwargs)
+                    data = bound.arguments.get("data", list(bound.arguments.values())[1])
+                    entry["received_mask"] = [bool(x) for x in data.observation_mask]
+                    entry["received_obs"] = [S.bits(float(x)) for x in data.observations]
+                except Exception as e:   # noqa: BLE001
+                    REC["wrapper_errors"].append("%s: %s" % (type(e).__name__, str(e)[:150]))
                 REC["log"].append(entry)
-                super().add_observations(data)
-                entry["record"] = rec_canon(record(kind, self))
+                out = super().add_observations(*args, **kwargs)
+                try:
+                    entry["record"] = rec_canon(record(kind, self))
+                except Exception as e:   # noqa: BLE001
+                    REC["wrapper_errors"].append("%s: %s" % (type(e).__name__, str(e)[:150]))
+                return out
         Rec.__name__ = Rec.__qualname__ = "VerifRec" + base.__name__
         return Rec
     REC["combo"] = mk(m1.SparseDrugCombo, "combo")
@@ -873,9 +895,23 @@ def train_via_main(env, raw, kind):
     except BaseException as e:   # noqa: BLE001  (SystemExit of argparse included)
         if isinstance(e, KeyboardInterrupt):
             raise
+        if raised_by_harness(e):
+            REC["wrapper_errors"].append("%s: %s" % (type(e).__name__, str(e)[:150]))
+            return "wrapper", "%s: %s" % (type(e).__name__, str(e)[:120]), os.path.exists(out), data
         return "refused", "%s: %s" % (type(e).__name__, str(e)[:120]), os.path.exists(out), data
     log = list(REC["log"])
     return "ok", (log[-1] if log else None), os.path.exists(out), data
+
+
+def wrapper_trouble(res, case):
+    """anything the recording wrappers could not do since the last call: a broken tie; returns True when there was trouble"""
+    if not REC["wrapper_errors"]:
+        return False
+    res.count("wrapper.unexpected-call", len(REC["wrapper_errors"]))
+    res.disagree("C04:wrapper:add_observations", {k: v for k, v in dict(case).items() if k not in ("raw", "full")}, REC["wrapper_errors"][0],
+                 "the call shape the recording subclass knows")
+    del REC["wrapper_errors"][:]
+    return True
 
 
 def file_values(res, path):
@@ -918,6 +954,8 @@ def entry_point_case(ctx, res, env, case):
         # (a)
         st, got, wrote, path = train_via_main(env, raw, kind)
         c = dict(case)
+        if wrapper_trouble(res, c) or st == "wrapper" or (st == "ok" and got is not None and ("record" not in got or "received_mask" not in got)):
+            return            # the recording did not work: nothing below can be attributed to the implementation
         if st != "ok":
             Demote(res, "valid-file-refused").fail("train_model.main() refused a valid partially observed screen file", c, got, "trains", signature="C04:cli-raises:" + kind)
             return
@@ -946,6 +984,8 @@ def entry_point_case(ctx, res, env, case):
                 st, gb, wrote_b, pb = train_via_main(env, rb, kind)
                 res.count("class.entry-point.train_model.masked-" + pname)
                 cb = dict(case, poison=pname)
+                if wrapper_trouble(res, cb) or st == "wrapper":
+                    continue
                 if st != "ok":
                     res.fail("train_model.main() refused a screen file because of a value stored BEHIND the mask", cb, gb,
                              "trains on the observed subset whatever is stored behind the mask", signature="C04:cli-raises:" + kind)
@@ -967,11 +1007,13 @@ def entry_point_case(ctx, res, env, case):
                 st, gb, wrote_b, pb = train_via_main(env, rbad, kind)
                 res.evaluations += 1
                 res.count("class.entry-point.train_model.observed-" + bname)
+                if wrapper_trouble(res, dict(case, bad=bname)) or st == "wrapper":
+                    continue
                 if st == "ok":
                     held = None if gb is None else gb.get("record")
                     res.fail("train_model.main() accepted a screen file with a %s observation in an OBSERVED experiment and trained on it" % bname,
                              dict(case, bad=bname, row=pos), {"model_holds_n_obs": None if held is None else held.get("n_obs"),
-                                                               "value_received": None if gb is None else [S.from_bits(b) for b, m_ in zip(gb["received_obs"], gb["received_mask"])][:40]},
+                                                               "value_received": None if (gb is None or "received_obs" not in gb) else [S.from_bits(b) for b in gb["received_obs"]][:40]},
                              "the stage refuses (exception / non-zero exit)", signature="C04:cli-accepts-bad-value:" + kind)
                 elif wrote_b:
                     res.count("entry-point.refused-but-thetas-file-written")
